@@ -3,6 +3,7 @@ use std::time::{Duration, Instant};
 
 /// A fixed base `Instant` (Instant::now() is a syscall Kani cannot model).
 /// Layout on unix: Timespec { tv_sec: i64, tv_nsec: u32 } -- 16 bytes.
+#[cfg(not(feature = "no-unsafe"))]
 pub fn base_instant() -> Instant {
     unsafe { std::mem::transmute::<[u64; 2], Instant>([1000u64, 0u64]) }
 }
@@ -14,6 +15,7 @@ pub fn at(t0: Instant, secs: u64, nanos: u32) -> Instant {
 
 /// Stub for std::hash::RandomState::new (HashMap `anymap` in Core::new): the real one reads thread-local keys
 /// seeded by getrandom, which Kani cannot compile.  The anymap is not under test.
+#[cfg(not(feature = "no-unsafe"))]
 pub fn fixed_random_state() -> std::hash::RandomState {
     unsafe { std::mem::transmute::<[u64; 2], std::hash::RandomState>([0x1234_5678, 0x9abc_def0]) }
 }
